@@ -369,6 +369,21 @@ def behavioural(res, fact):
         fact(pyv == want, "vector_address", f"{name}:python", {"fetches_from": pyv, "tables_say": want})
         fact(rsv == want, "vector_address", f"{name}:rust", {"fetches_from": rsv, "tables_say": want})
 
+    # (c2) effective width of the pointer registers, recovered by behaviour: INC r3 at 0xFFFFF must wrap to 0 with Z=1 and
+    #      DEC r3 at 0 must give 0xFFFFF on BOTH cores for X, Y, U and S (the tables say 20 bits for all four)
+    for sel, rname in ((4, "X"), (5, "Y"), (6, "U"), (7, "S")):
+        for opc, start, want_v, want_z in ((0x6C, 0xFFFFF, 0, 1), (0x7C, 0, 0xFFFFF, 0)):
+            rg = dict(regs)
+            rg[rname] = start
+            case = mk(bytes([opc, sel]), rg, {}, "INC" if opc == 0x6C else "DEC", opc)
+            obs = pyexec.run_case(case)
+            r = rust.run("exec", [dict(case, id=0)])[0]["steps"][0]
+            res.monitor("register_tables")
+            fact(obs["regs"][rname] == want_v and obs["FZ"] == want_z, "pointer_register_width_behaviour",
+                 f"{rname}:{opc:02X}:python", {"value": obs["regs"][rname], "Z": obs["FZ"], "want": (want_v, want_z)})
+            fact(r["regs"][rname] == want_v and ((r["f"] >> 1) & 1) == want_z, "pointer_register_width_behaviour",
+                 f"{rname}:{opc:02X}:rust", {"value": r["regs"][rname], "Z": (r["f"] >> 1) & 1, "want": (want_v, want_z)})
+
     # (d) the machine models keep their OWN copy of the interrupt vector address for hardware delivery (timer/key/ON):
     #     run a ROM whose vector at 0xFFFFA points to H1 while other plausible places hold different pointers, deliver a
     #     timer interrupt through step() on both real machines and see where control goes.
